@@ -25,7 +25,7 @@ def search(ctx, reason):
     finally:
         ctx.tier = old
     for f in t.failures:
-        if f.kind == 'oracle':
+        if f.kind == 'oracle' and f.key not in listed_keys():
             return f
     return None
 
